@@ -749,11 +749,15 @@ func c01SortByScheme(cs []c01Case) []c01Case {
 func runC01(c *Ctx) {
 	c.Rep.Rule = "grammar-directed queries (six term kinds x ! x OR groups x 1-4 AND groups, stray operators, escaped blanks, mixed case, accented letters) against lines built from near-misses of the query's own words; all of --exact/+x/-i/+i/--literal/--algo/+s/--scheme/direction; non-trivial = non-empty query that keeps some but not all lines; distinct by JSON of the case"
 	if c.Replay != "" {
+		if replaySearchSequence(c) {
+			return
+		}
 		for _, cs := range c01SortByScheme(c01Load(c.Replay)) {
 			c01RunOne(c, cs)
 		}
 		return
 	}
+	searchSequenceStream(c, 150, 3000) // default scheme: must run before the per-scheme passes
 	corpus := []c01Case{}
 	for _, f := range corpusFiles(c) {
 		corpus = append(corpus, c01Load(f)...)
